@@ -18,13 +18,18 @@ A_B = ['bounded: every raw path of length <= N over all 256 byte values; longer 
        'reference = /verif/spec/path_ref.h (written from htp_config.h / htp_core.h comments, RFC 3986 5.2.4, RFC 3629 and the behaviour pinned by test_utils.cpp); '
        'deliberate reference choices CHOICE(1..7) and KNOWN_F_C12_* carve-outs are listed in notes/c12.md']
 A_CFG = ['decoder configuration fully symbolic: every boolean switch any int, every enum switch any of its enumerators, replacement byte any byte, '
-         'initial tx->flags and expected status symbolic; bestfit_map = the real bestfit_1252 of htp_config.c (same translation unit)']
+         'initial tx->flags and expected status symbolic']
 
 # known deviations of the unchanged tree from the documented semantics; each macro carves out exactly one
 # case in spec/path_ref.h (reference mirrors the code when defined).  Remove one to see the violation.
 KNOWN_F = {'KNOWN_F_C12_RAW_NUL': 1, 'KNOWN_F_C12_U_NUL_NOTERM': 1, 'KNOWN_F_C12_HALFFULL_FFF0': 1,
            'KNOWN_F_C12_UTF8_TRUNCATED_TAIL': 1}
-MAPLOOPS = 'decode_u_encoding_path.0:392,decode_u_encoding_params.0:392,bestfit_codepoint.0:392,rf_bestfit.0:392'
+A_SYMMAP = ['best-fit map SYMBOLIC: any map of at most MAPK triples plus terminator (any bytes, so it can map to NUL, separators, percent); '
+            'the real 391-triple bestfit_1252 is covered per call by the lemma unit c12_u_decode_realmap']
+
+
+def maploops(k):
+    return ','.join('%s.0:%d' % (f, k) for f in ('decode_u_encoding_path', 'decode_u_encoding_params', 'bestfit_codepoint', 'rf_bestfit'))
 
 
 def bounded(name, struct, body, n_q, n_t, sub, src=('htp_util.c',), unwind_extra=2, unwindset=None, timeout=(600, 3600),
@@ -85,14 +90,15 @@ bounded('c12_normalize_fixpoint', S_A, NORM_PRE + '''
 # ------------------------------------------------------------------------------------------------
 # (c2) path decoder alone: bytes, length, indicator set and expected status equal the reference
 # ------------------------------------------------------------------------------------------------
-S_D = 'unsigned char a[N]; size_t la; ref_cfg_t cf; uint64_t flags0; int status0;'
+S_D = 'unsigned char a[N]; size_t la; ref_cfg_t cf; uint64_t flags0; int status0; unsigned char map[3 * MAPK + 3];'
 DEC_PRE = '''
   VASSUME(in.la <= N && C12_REFCFG_LEGAL(in.cf));
   VASSERT(C12_FLAGS_AGREE, "reference indicator bits and enumerators are the library's");
   unsigned char buf[N], ref[N];
   for (size_t i = 0; i < N; i++) buf[i] = in.a[i];
   bstr b; b.realptr = buf; b.len = in.la; b.size = N;
-  c12_setup(&in.cf, HTP_DECODER_URL_PATH, bestfit_1252, in.flags0, in.status0);
+  C12_MAP_SETUP;
+  c12_setup(&in.cf, HTP_DECODER_URL_PATH, C12_MAP, in.flags0, in.status0);
   ref_fx_t fx; fx.flags = in.flags0; fx.status = in.status0;
 '''
 DEC_CMP = '''
@@ -104,7 +110,7 @@ DEC_CMP = '''
 '''
 bounded('c12_ref_decode_path', S_D, DEC_PRE + '''
   htp_status_t rc = htp_decode_path_inplace(&c12_tx, &b);
-  size_t rl = ref_decode_path(&in.cf, bestfit_1252, in.a, in.la, ref, &fx);
+  size_t rl = ref_decode_path(&in.cf, C12_MAP, in.a, in.la, ref, &fx);
   VASSERT(rc == HTP_OK, "decode_path returns HTP_OK for every legal configuration");
-''' + DEC_CMP % {'w': 'decoded path'}, 7, 9, src=('htp_util.c', 'htp_config.c'), unwindset=MAPLOOPS, unwind_extra=1, assumes=A_CFG,
+''' + DEC_CMP % {'w': 'decoded path'}, 7, 9, unwindset=maploops(4), unwind_extra=1, extra_defs={'MAPK': 2}, assumes=A_CFG + A_SYMMAP,
         sub='htp_decode_path_inplace == reference decoder for every decoder configuration: bytes, length, EQUAL indicator set, equal expected status')
